@@ -205,6 +205,8 @@ func init() {
 	ext["runtime/debug.Stack"] = func(fr *frame, args []value) value { return []value{} }
 	ext["runtime/debug.PrintStack"] = func(fr *frame, args []value) value { return nil }
 	ext["runtime.Caller"] = func(fr *frame, args []value) value { return tuple{uintptr(0), "", 0, false} }
+	ext["encoding/gob.Register"] = func(fr *frame, args []value) value { return nil }
+	ext["encoding/gob.RegisterName"] = func(fr *frame, args []value) value { return nil }
 	ext["runtime.KeepAlive"] = func(fr *frame, args []value) value { return nil }
 	ext["runtime.SetFinalizer"] = func(fr *frame, args []value) value { return nil }
 	ext["(*sync.Mutex).Lock"] = func(fr *frame, args []value) value { return nil }
@@ -240,6 +242,10 @@ func init() {
 	ext["sync/atomic.StoreInt32"] = func(fr *frame, args []value) value { fr.i.setCell(args[0].(*value), args[1]); return nil }
 	ext["sync/atomic.StoreUint32"] = func(fr *frame, args []value) value { fr.i.setCell(args[0].(*value), args[1]); return nil }
 	ext["sync/atomic.StoreInt64"] = func(fr *frame, args []value) value { fr.i.setCell(args[0].(*value), args[1]); return nil }
+	ext["sync/atomic.StorePointer"] = func(fr *frame, args []value) value { fr.i.setCell(args[0].(*value), args[1]); return nil }
+	ext["sync/atomic.LoadPointer"] = func(fr *frame, args []value) value { return *(args[0].(*value)) }
+	ext["sync/atomic.StoreUint64"] = func(fr *frame, args []value) value { fr.i.setCell(args[0].(*value), args[1]); return nil }
+	ext["sync/atomic.LoadUint64"] = func(fr *frame, args []value) value { return *(args[0].(*value)) }
 	ext["sync/atomic.AddInt64"] = func(fr *frame, args []value) value {
 		p := args[0].(*value)
 		nv := binop(fr, token.ADD, types.Typ[types.Int64], *p, args[1], token.NoPos)
